@@ -1,14 +1,29 @@
 """Gen/HistoryCfg.lean: how the analysis treats the list objects it gets from the machine model
-(C18).  Every flag is read off the *shape* of the statement in the source's AST:
+(C18).  Every flag says whether an object of the machine model is handed on BY REFERENCE or as a copy, and is
+read by DATA FLOW (astutil_G5.Flow / Origins; nothing of OSACA is imported or executed): the objects are tagged
+where they come from (`get_load_throughput(..)`, `.hidden_operands`, `.port_pressure`,
+`_data["load_throughput_default"]`) and the tags are propagated through every way a local gets a value --
+plain / tuple / conditional assignment, `a or [b]`, loop targets, comprehensions, `append` / `extend` / `+=`,
+subscripts with constant index, shallow and deep copies.  Names of locals, hoisted sub-expressions, if/else vs
+conditional expression vs guard, loop vs comprehension do not show.
 
-  rmwInPlace / rmwLoadFirst   arch_semantics.assign_tp_lt: how the store micro-ops are joined to the
-                              load micro-ops (`L += S`, `L.extend(S)`  vs  `L = L + S`, `L = S + L`, ...)
-  loadByRef                   ... whether L is the table's own list (`load_perf_data[0][1]`, `ldp[1]`)
-  loadDefaultCopied           hw_model.get_load_throughput: `load_throughput_default.copy()`
-  foundByRef                  arch_semantics._handle_instruction_found: `port_uops = data.port_pressure`
-  hiddenByRef                 isa_semantics._apply_found_ISA_data: `op_dict[..].append(op)`
+  rmwInPlace / rmwLoadFirst   arch_semantics.assign_tp_lt: the ONE statement that concatenates a load micro-op
+                              list with a store micro-op list (`L += S`, `L.extend(S)`  vs  `X = L + S`,
+                              `S + L`, `[*L, *S]`, `list(chain(L, S))`)
+  loadByRef                   ... whether a copy lies on any way from the load table to that statement
+                              (`load_perf_data[0][1]`, `ldp[1]` / `uops` of `for mem, uops in ...`); all ways
+                              must agree, otherwise the generator fails
+  loadDefaultCopied           hw_model.get_load_throughput: `[(memory, <load_throughput_default>.copy())]`,
+                              also through locals, `list(...)`, `[:]`
+  foundByRef                  arch_semantics._handle_instruction_found: `<form>.port_uops = <data>.port_pressure`
+  hiddenByRef                 isa_semantics._apply_found_ISA_data: every way a hidden operand object reaches an
+                              operand list (`append(op)` in the loop, `+= [h for h in ...]`, `extend`)
   cacheShadowed               hw_model.MachineModel.__init__: runtime-cache hit followed by an
-                              unconditional `_get_cached` whose result replaces it
+                              unconditional `_get_cached` whose result replaces it (statement shape, as before)
+
+Insisted on (fails loudly): one call each of get_load_throughput / get_store_throughput in assign_tp_lt, exactly
+one joining statement, the load list never appended to the store table's list in place, no operand that may be a
+load list as well as a store list.
 
 `census()` lists every in-place operation of the anchored functions (used by the harness only to
 decide how hard to search; it is not an input of any theorem).
@@ -368,7 +383,8 @@ DOC = {
 
 
 @generator("HistoryCfg", ["osaca/semantics/arch_semantics.py", "osaca/semantics/isa_semantics.py",
-                          "osaca/semantics/hw_model.py"])
+                          "osaca/semantics/hw_model.py", "../verif-self:tools/gen/historycfg.py",
+                          "../verif-self:tools/gen/astutil_G5.py"])
 def gen_historycfg():
     f = flags()
     out = [HEADER, "namespace OsacaVerif.Gen.HistoryCfg\n"]
